@@ -143,3 +143,24 @@ Proof.
   - destruct H as [Hr [Hq Hc]]. rewrite Hq, Hc in I3. cbn in I3. rewrite app_nil_r in I3. exact I3.
   - intro t. destruct H as [Hr [Hq Hc]]. specialize (I4 t). rewrite Hr in I4. cbn in I4. exact I4.
 Qed.
+
+(* ------------------------------------------------------------------ protocol v5 send path *)
+Lemma prefix_of_map : forall {A B} (f : A -> B) (l : list A) (a b : list B),
+  a ++ b = map f l -> a = map f (firstn (length a) l).
+Proof.
+  intros A B f l a b H.
+  assert (H1 : firstn (length a) (a ++ b) = a) by (rewrite firstn_app, Nat.sub_diag, firstn_all; cbn; apply app_nil_r).
+  rewrite H in H1. rewrite firstn_map in H1. symmetry. exact H1.
+Qed.
+
+Lemma send_v5_main : forall enc maxp c frames ops, mode_ok (p_mode c) -> p_keep_rest c = true ->
+  let s := run c (send_prog enc maxp frames) ops in
+  drained s ->
+  wire s = concat (map snd (order s))
+  /\ forall t, exists k, thread_part t (order s) = map (encode_v5_or_nil enc maxp) (firstn k (frames t)).
+Proof.
+  intros enc maxp c frames ops Hmd Hk s Hd.
+  destruct (order_main c (send_prog enc maxp frames) ops Hmd Hk) as [_ [H2 H3]]. fold s in H2, H3.
+  destruct (H3 Hd) as [Hw Ht]. split; [exact Hw|].
+  intro t. exists (length (thread_part t (order s))). eapply prefix_of_map. apply Ht.
+Qed.
